@@ -7,8 +7,13 @@ import (
 	"fmt"
 	"os"
 	"path/filepath"
+	"runtime"
 	"runtime/debug"
+	"strconv"
+	"sync"
+	"sync/atomic"
 	"testing"
+	"time"
 
 	"pgregory.net/rapid"
 )
@@ -56,8 +61,13 @@ func runRapid(t *testing.T, id string) {
 	_ = os.Remove(rp)
 	cur := rp + ".current"
 	mark := id != "C19" && id != "C16" // C19 has no goroutines and recovers every panic in-process; C16 writes its own marker
+	if id != "C19" {                   // C19 has its own, much tighter, per-input watchdog
+		startStuckWatchdog(cur)
+	}
 	rapid.Check(t, func(rt *rapid.T) {
 		c := p.Gen(rt)
+		caseStart.Store(time.Now().UnixNano())
+		defer caseStart.Store(0)
 		if mark {
 			// the case that is running when a panic in a goroutine started by the library (commit / preload workers)
 			// kills the process becomes the replay file
@@ -81,6 +91,44 @@ func runRapid(t *testing.T, id string) {
 	})
 }
 
+var (
+	caseStart atomic.Int64
+	stuckOnce sync.Once
+)
+
+// stuckLimit is the time one case may take before the process dumps all goroutines and exits: cases take milliseconds
+// to seconds (tens of seconds for the largest thorough cases); a library call that waits for its own workers forever
+// must become a verdict instead of a test deadline.  Not yet a verdict: the driver re-runs the case alone.
+func stuckLimit() time.Duration {
+	if s := os.Getenv("VERIF_STUCK_SECONDS"); s != "" {
+		if n, err := strconv.Atoi(s); err == nil && n > 0 {
+			return time.Duration(n) * time.Second
+		}
+	}
+	if thorough() {
+		return 600 * time.Second
+	}
+	return 240 * time.Second
+}
+
+func startStuckWatchdog(marker string) {
+	stuckOnce.Do(func() {
+		limit := stuckLimit()
+		go func() {
+			for {
+				time.Sleep(2 * time.Second)
+				s := caseStart.Load()
+				if s != 0 && time.Since(time.Unix(0, s)) > limit {
+					buf := make([]byte, 4<<20)
+					n := runtime.Stack(buf, true)
+					fmt.Printf("VERIF-STUCK %s after %s\n%s\nVERIF-STUCK-END\n", marker, limit, buf[:n])
+					os.Exit(4)
+				}
+			}
+		}()
+	})
+}
+
 // TestReplay-style entry: run one saved case without rapid.
 func runReplay(t *testing.T, path string) {
 	b, err := os.ReadFile(path)
@@ -101,6 +149,11 @@ func runReplay(t *testing.T, path string) {
 	c := p.New()
 	if err := json.Unmarshal(w.Case, c); err != nil {
 		t.Fatalf("bad case in replay file: %v", err)
+	}
+	if w.Property != "C19" {
+		startStuckWatchdog(path)
+		caseStart.Store(time.Now().UnixNano())
+		defer caseStart.Store(0)
 	}
 	if _, err := safeRun(p, c); err != nil {
 		t.Fatalf("property %s violated: %v\nVERIF-REPLAY %s", w.Property, err, path)
